@@ -122,7 +122,9 @@ class C13(Prop):
             "row and again in reverse order, then concurrently on 2-6 clones for 2-3 rounds.  conc: 3-12 jobs x "
             "{1,2,4,8,16} threads x {shared scanner, clones reconfigured per job} x 1-3 rounds, list / callback / "
             "fragmented API with seeded yields between scans, inside callbacks and inside fetch; rules: text, nocase, "
-            "wide, regexes with lazy-DFA validators, counts, rule references, external symbols, hash.* over ranges "
+            "wide, fullword, regexes with `wide` + \\b/\\B (hand-stepped wide DFA walk), greedy and non-greedy atomized "
+            "regexes (reverse/forward lazy-DFA validators), raw regexes, `matches` in conditions, counts, rule "
+            "references, external symbols, hash.* over ranges "
             "planted from other jobs' inputs, pe/elf/macho on small assets.  Non-trivial: hist with a clone and a "
             "state-changing operation; hash with a repeated range; conc with >= 2 threads; distinct by content.")
     TRUSTED = ["Coq 8.16.1 kernel + vm_compute",
